@@ -1,5 +1,5 @@
 (* Proofs about the proxy (Part 1 of Remote.v) and about chains of FIFO stages (Part 2). *)
-From Coq Require Import List NArith Bool Lia Sorted.
+From Coq Require Import List NArith Bool Lia Sorted Arith PeanoNat.
 From RV Require Import Cluster.Remote.
 Import ListNotations.
 Local Open Scope N_scope.
@@ -398,3 +398,48 @@ Qed.
 
 Lemma subseq_snoc {A} (a b : list A) x : subseq a b -> subseq (a ++ [x]) (b ++ [x]).
 Proof. intros H. apply subseq_app; [exact H|apply subseq_refl]. Qed.
+
+(* ------------------------------------------------------------------ *)
+(* a byte pipe cut at ANY byte offset delivers a prefix of the frames written into it *)
+
+Section BytePipeFacts.
+  Context {F : Type}.
+  Variable enc : F -> list N.
+  Variable dec : list N -> option (F * list N).
+  (* the encoding is self-delimiting, and an incomplete frame cannot be read *)
+  Hypothesis dec_enc : forall f rest, dec (enc f ++ rest) = Some (f, rest).
+  Hypothesis dec_partial : forall f bs c tl, enc f = bs ++ c :: tl -> dec bs = None.
+  Hypothesis dec_nil : dec [] = None.
+
+  Lemma enc_nonempty f : enc f <> [].
+  Proof.
+    intros E. pose proof (dec_enc f []) as H. rewrite E in H. simpl in H. congruence.
+  Qed.
+
+  Theorem cut_at_any_byte : forall fs n fuel,
+    (length (firstn n (concat (map enc fs))) <= fuel)%nat ->
+    exists k, read_all dec fuel (firstn n (concat (map enc fs))) = firstn k fs.
+  Proof.
+    induction fs as [|f r IH]; intros n fuel Hf.
+    - exists 0%nat. simpl. rewrite firstn_nil. destruct fuel; simpl; [reflexivity|]. now rewrite dec_nil.
+    - cbn [map concat] in *. set (B := concat (map enc r)) in *.
+      destruct (Nat.lt_ge_cases n (length (enc f))) as [Hlt|Hge].
+      + exists 0%nat. simpl.
+        assert (E1 : firstn n (enc f ++ B) = firstn n (enc f)).
+        { rewrite firstn_app. replace (n - length (enc f))%nat with 0%nat by lia. simpl. apply app_nil_r. }
+        rewrite E1. destruct fuel; [reflexivity|]. simpl.
+        assert (Hs : skipn n (enc f) <> []).
+        { intros E. apply (f_equal (@length N)) in E. rewrite skipn_length in E. simpl in E. lia. }
+        destruct (skipn n (enc f)) as [|c tl] eqn:Es; [congruence|].
+        rewrite (dec_partial f (firstn n (enc f)) c tl); [reflexivity|].
+        rewrite <- Es. symmetry. apply firstn_skipn.
+      + assert (E1 : firstn n (enc f ++ B) = enc f ++ firstn (n - length (enc f)) B).
+        { rewrite firstn_app. rewrite firstn_all2 by lia. reflexivity. }
+        rewrite E1 in *. rewrite app_length in Hf.
+        pose proof (enc_nonempty f) as Hne.
+        assert (1 <= length (enc f))%nat by (destruct (enc f); [congruence|simpl; lia]).
+        destruct fuel as [|fuel']; [lia|]. simpl. rewrite dec_enc.
+        destruct (IH (n - length (enc f))%nat fuel') as [k Hk]; [fold B; lia|].
+        exists (S k). simpl. fold B in Hk. now rewrite Hk.
+  Qed.
+End BytePipeFacts.
